@@ -126,12 +126,122 @@ PROPS['C13'] = {
     ],
 }
 
+E_RULE = ("cases are stratified programs (2-5 predicates p0..p4 of arity 0-2, 1-3 clauses each; a clause of p_i calls only p_j with j > i) whose "
+          "bodies are built from calls, unification, comparisons, arithmetic function terms, append/count/include/functor, and/or groups nested to "
+          "depth 2, and - depending on the run - `!`, `fail`, not(...), print/print_list/nl; arguments are variables, atoms, small integers, `$_`, "
+          "lists with optional tail variable and f/1 terms. The query is asked with next_solution() until it reports no more answers (at most 40 "
+          "requests) and then re-asked 1-3 more times. Compared per request: the returned substitution set (with variable ids), the resolved query, "
+          "the variable counter and the text written to stdout. Non-trivial = at least two clauses or at least one answer; distinct = distinct "
+          "encoded program text. Programs in which an occurs-check situation arises stop at that point in both runs.")
+
+
+def engine_runs(prop, n, flagsets, what=None):
+    runs = []
+    for fl in flagsets:
+        r = {'suite': 'engine', 'args': ['--props', prop, '--n', str(n)] + fl}
+        if what:
+            r['spec_oracle'] = {'prop': prop, 'what': what}
+        runs.append(r)
+    return runs
+
+
+ENGINE_ASSUME = ("the property oracle compares the implementation's answers / output with the reference choicepoint-stack machine "
+                 "(lean/SuironVerif/Spec/Machine.lean, run by the driver) up to renaming of unbound variables; cases on which the reference does not "
+                 "finish within 400000 steps or meets an occurs-check situation are outside the comparison; a panicking built-in (e.g. arithmetic on an "
+                 "unbound variable) ends the comparison at that point")
+
+PROPS['C01'] = {
+    'module': 'SuironVerif.Props.C01',
+    'theorems': ['Suiron.C01.sigma_const_partial', 'Suiron.C01.format_var_partial', 'Suiron.C01.format_skip_nonvar_partial', 'Suiron.C01.machine_answer_partial'],
+    'oracles': ['C01'],
+    'suites': {
+        'quick': engine_runs('C01', 1500, [['--pure'], ['--pure', '--print', '2'], []], what='answers'),
+        'thorough': engine_runs('C01', 20000, [['--pure']] * 8 + [['--pure', '--print', '2']] * 2 + [[]] * 4, what='answers'),
+    },
+    'rule': E_RULE, 'design_ref': '5.1',
+    'assumptions': ["PARTIAL: the refinement theorem engine = reference machine is stated in Props/C01.lean and not yet proved; proved are the isolation "
+                    "mechanism (a node's substitution set is never modified), the answer formatting of solve/solve_all and the machine's answer rule",
+                    ENGINE_ASSUME],
+}
+PROPS['C02'] = {
+    'module': 'SuironVerif.Props.C02',
+    'theorems': ['Suiron.C02.cut_executes', 'Suiron.C02.marked_node_blocks', 'Suiron.C02.no_later_clause', 'Suiron.C02.cut_then_fail_ends_call',
+                 'Suiron.C02.cut_is_local', 'Suiron.C02.cut_marks', 'Suiron.C02.cut_yields_at_most_this_answer'],
+    'oracles': ['C02'],
+    'suites': {
+        'quick': engine_runs('C02', 1500, [['--cut', '8', '--not', '0'], ['--cut', '5'], ['--cut', '10', '--print', '3', '--not', '0']], what='both'),
+        'thorough': engine_runs('C02', 20000, [['--cut', '8', '--not', '0']] * 6 + [['--cut', '5']] * 4 + [['--cut', '10', '--print', '3', '--not', '0']] * 4, what='both'),
+    },
+    'rule': E_RULE + " Runs here put `!` at every position of conjunctions and disjunctions (never inside not/time), often followed by `fail`.",
+    'design_ref': '5.2',
+    'assumptions': ["the theorems are about the engine model: a cut marks every node it passes on its way up, a marked node is never entered again and "
+                    "changes nothing, a call whose body cut and failed tries no later clause, a call never passes a cut on to its caller",
+                    ENGINE_ASSUME],
+}
+PROPS['C03'] = {
+    'module': 'SuironVerif.Props.C03',
+    'theorems': ['Suiron.C03.not_once', 'Suiron.C03.not_hides_bindings', 'Suiron.C03.not_iff', 'Suiron.C03.not_then_exhausted'],
+    'oracles': ['C03'],
+    'suites': {
+        'quick': engine_runs('C03', 1500, [['--not', '8', '--cut', '0'], ['--not', '6', '--cut', '2'], ['--not', '8', '--print', '3', '--cut', '0']], what='both'),
+        'thorough': engine_runs('C03', 20000, [['--not', '8', '--cut', '0']] * 6 + [['--not', '6', '--cut', '2']] * 4 + [['--not', '8', '--print', '3', '--cut', '0']] * 2, what='both'),
+    },
+    'rule': E_RULE + " Runs here wrap calls, conjunctions, disjunctions, unifications and comparisons in not(...) (no cut inside).",
+    'design_ref': '5.3',
+    'assumptions': ["`G has no answer` is read on the engine model as: G's node, asked once, reports none; the equivalence with the reference search is "
+                    "decided by the machine comparison", ENGINE_ASSUME],
+}
+PROPS['C04'] = {
+    'module': 'SuironVerif.Props.C04',
+    'theorems': ['Suiron.C04.bip_effect_once', 'Suiron.C04.bip_output_appended', 'Suiron.C04.interleave_eq', 'Suiron.C04.interleave_no_markers',
+                 'Suiron.C04.print_shows_bound_value'],
+    'oracles': ['C04'],
+    'suites': {
+        'quick': engine_runs('C04', 1500, [['--print', '8'], ['--print', '8', '--cut', '0', '--not', '0'], ['--print', '6', '--cut', '6']], what='output'),
+        'thorough': engine_runs('C04', 20000, [['--print', '8']] * 6 + [['--print', '8', '--cut', '0', '--not', '0']] * 4 + [['--print', '6', '--cut', '6']] * 4, what='output'),
+    },
+    'rule': E_RULE + " Runs here place print / print_list / nl goals among backtracking goals; stdout is captured per request.",
+    'design_ref': '5.4',
+    'assumptions': ["output order and multiplicity are decided by comparing the captured stdout per request with the reference machine's output; "
+                    "`time(...)` is never generated (its text is a duration)", ENGINE_ASSUME],
+}
+PROPS['C05'] = {
+    'module': 'SuironVerif.Props.C05',
+    'theorems': ['Suiron.C05.none_exhausts', 'Suiron.C05.exhausted_stays', 'Suiron.C05.reasked', 'Suiron.C05.C05'],
+    'oracles': ['C05'],
+    'suites': {
+        'quick': engine_runs('C05', 1500, [[], ['--not', '6'], ['--cut', '6', '--print', '4']]),
+        'thorough': engine_runs('C05', 20000, [[]] * 6 + [['--not', '6']] * 4 + [['--cut', '6', '--print', '4']] * 4),
+    },
+    'rule': E_RULE + " Every case is re-asked 1-3 times after the first `no more answers`.",
+    'design_ref': '5.5',
+    'assumptions': ["theorems: for every node, knowledge base, global state and fuel; a request that runs out of fuel (the model's rendering of "
+                    "non-termination) is the only alternative to `none` the statement allows",
+                    "oracle on the implementation: after the first None every further next_solution() returns None and writes nothing"],
+}
+
 NOT_APPLICABLE = {
     'C24': 'Undefined behaviour (aliasing of raw-pointer writes, data races on static mut) is a property of pointers, borrows and threads, '
            'which a pure functional Lean model erases by construction; no executable Lean model can express it (DESIGN.md 5.24).',
 }
 
 LEVEL_TEXT = {
+    'C01': 'PARTIAL proof + exhaustive-style differential check: the engine model (node tree with returned cut flag) and a reference choicepoint-stack '
+           'machine are both executable Lean definitions; implementation, model and machine are run on the same generated programs on every check and '
+           'must agree request by request (substitution sets with ids, counters, stdout) resp. answer by answer (up to variable renaming). Proved for all '
+           'inputs: node substitution sets are immutable (no leakage between alternatives), the answer formatting, the machine answer rule. The '
+           'refinement theorem engine = machine is stated, not yet proved.',
+    'C02': 'Proved in Lean on the engine model for all nodes, knowledge bases, states and fuel: `!` marks its node and raises the cut flag; every node that '
+           'passes the flag on is marked when it returns; a marked node answers none and changes nothing (no retry to the left of the cut, no answer '
+           'beyond the one being derived); a call whose body cut and then failed tries no later clause; a call never reports a cut to its caller '
+           '(callers and siblings unaffected). Model tied to the code, and engine compared with the reference machine, on every run.',
+    'C03': 'Proved in Lean on the engine model: the first request on a not-node asks G once and returns its own, unchanged substitution set iff G has no '
+           'answer, none otherwise; afterwards the node is exhausted. Agreement with the reference search is decided by the machine comparison.',
+    'C04': 'Proved in Lean: a built-in node runs its effect on the first request only and appends exactly its text to the output; print interleaves its '
+           'arguments with the pieces of the format (or concatenates without markers) and shows bound values. Order and multiplicity of output under '
+           'backtracking are decided by comparing captured stdout per request with the reference machine.',
+    'C05': 'Proved in Lean for all nodes, knowledge bases, global states and fuel values: a request that answers none leaves an exhausted node, and an '
+           'exhausted node answers none again with the global state (output, counter, ticks) unchanged, for any number of further requests.',
     'C06': 'Proved in Lean for all well-formed operands, substitution sets and fuel: a successful unification keeps every earlier binding verbatim and only '
            'adds bindings of previously unbound variables (to terms that are neither `$_` nor function calls). Agreement with a reference mgu (soundness, '
            'generality, no false failure) is decided on the implementation by the oracle over random and exhaustive universes and by the correspondence '
